@@ -16,6 +16,10 @@ def wireStackCut : Bytes := [72, 84, 84, 80, 47, 49, 46, 49, 32, 50, 48, 48, 32,
 /-- one complete zstd frame holding "a" -/
 def zstdFrameA : Bytes := [40, 181, 47, 253, 32, 1, 9, 0, 0, 97]
 
+/-- `Content-Encoding: zstd`, `Content-Length: 20`, body = two complete frames holding "a" each -/
+def wireZstdAA : Bytes :=
+  lit "HTTP/1.1 200 OK\r\nContent-Encoding: zstd\r\nContent-Length: 20\r\n\r\n" ++ zstdFrameA ++ zstdFrameA
+
 def cfgOf (ce : Option Str) (te : Option Str) (fuel : Nat) : Cfg CD :=
   { newDecoder := initDecoder ce, enforce := true, decodeDefault := true, chunked := u3Chunked te,
     head := false, fuel := fuel }
@@ -28,6 +32,11 @@ def cfgGzip := cfgOf (some (lit "gzip")) none 1000
 def cfgNone := cfgOf none none 1000
 def cfgZstd := cfgOf (some (lit "zstd")) none 1000
 def cfgStack := cfgOf (some (lit "deflate, zstd")) none 1000
+
+/-- `Content-Encoding: zstd` with the decoder spelled out (independent of the generated facts) -/
+def cfgZstdAA : Cfg CD :=
+  { newDecoder := some (.one (.zstd (ZObj.fresh zstdObj))), enforce := true, decodeDefault := true,
+    chunked := false, head := false, fuel := 1000 }
 
 def out {α β} (x : Except Exc α × β) : Option α := match x.1 with | .ok a => some a | .error _ => none
 def err {α β} (x : Except Exc α × β) : Option Exc := match x.1 with | .ok _ => none | .error e => some e
